@@ -350,6 +350,21 @@ func (m *metadataAPI) CreateStream(ctx context.Context, req *proto.CreateStreamO
 		return status.New(codes.InvalidArgument, "no partitions provided")
 	}
 
+	// The operation may come from a peer. An operation that is not consistent
+	// in itself (partitions naming another stream, the same partition twice)
+	// would pass the preconditions, which look the stream up by the name its
+	// partitions carry, and then fail on every server when it is applied.
+	partitionIDs := make(map[int32]struct{}, len(req.Stream.Partitions))
+	for _, partition := range req.Stream.Partitions {
+		if partition == nil || partition.Stream != req.Stream.Name {
+			return status.New(codes.InvalidArgument, "partition does not belong to stream")
+		}
+		if _, ok := partitionIDs[partition.Id]; ok {
+			return status.Newf(codes.InvalidArgument, "duplicate partition %d", partition.Id)
+		}
+		partitionIDs[partition.Id] = struct{}{}
+	}
+
 	for _, partition := range req.Stream.Partitions {
 		// Select replicationFactor nodes to participate in the partition.
 		replicas, st := m.getPartitionReplicas(partition.ReplicationFactor)
